@@ -70,6 +70,9 @@ func modeArgs(mode int) []bool {
 	case 1:
 		return []bool{false}
 	}
+	if toggleSpell%2 == 1 {
+		return []bool{} // "passing nothing", spelled as an empty list (a forwarded args[1:]...)
+	}
 	return nil
 }
 
